@@ -1,10 +1,17 @@
 package rigv
 
 import (
+	"context"
 	"fmt"
 	"strings"
+	"sync"
 	"testing"
 	"time"
+
+	"go.6river.tech/mmmbbb/actions"
+	"go.6river.tech/mmmbbb/services"
+
+	"verif/harness/seam"
 
 	"verif/harness/evd"
 	"verif/harness/hist"
@@ -122,6 +129,112 @@ func sortStr(s []string) {
 			s[j], s[j-1] = s[j-1], s[j]
 		}
 	}
+}
+
+// startPruneServices runs the real prune service loops (their own tickers, in
+// virtual time) for the duration of the case and returns a stop function.
+func startPruneServices(w *hist.World) func() {
+	ctx, cancel := context.WithCancel(seam.WithActor(w.E.T.Context(), "svc"))
+	svcs := services.VerifNewServices(
+		services.PruneCommonSettings{PruneCommonParams: actions.PruneCommonParams{MinAge: 2 * time.Second, MaxDelete: 3}, Interval: 45 * time.Second, Fuzz: 5 * time.Second, Backoff: 50 * time.Millisecond},
+		services.DeadLetterSettings{})
+	var wg sync.WaitGroup
+	var started []services.Service
+	for _, s := range svcs {
+		if !strings.HasPrefix(s.Name(), "prune-") {
+			continue // dead-lettering, expiry and push are client-visible by design
+		}
+		if err := s.Initialize(ctx, w.E.Client); err != nil {
+			w.E.T.Fatalf("init %s: %v", s.Name(), err)
+		}
+		started = append(started, s)
+		ready := make(chan struct{})
+		wg.Add(1)
+		go func(s services.Service) { defer wg.Done(); _ = s.Start(ctx, ready) }(s)
+		<-ready
+	}
+	return func() {
+		cancel()
+		wg.Wait()
+		for _, s := range started {
+			_ = s.Cleanup(context.Background())
+		}
+	}
+}
+
+// TestC15svc: the same seeded history with the real prune *services* running
+// in the background (their own tickers, small min age and batch) and without
+// them must give the same client-visible trace.
+func TestC15svc(t *testing.T) {
+	cfg := evd.Env()
+	col := evd.New("C15", cfg)
+	defer col.Flush()
+	sec, min := time.Second, time.Minute
+	prof := hist.Profile{Name: "twin-services", Ops: 110, Topics: 2, Subs: 4, POrdered: 0, PFilter: 0.3, PDL: 0.3, PRetry: 0.6, ProbeOnly: true, NoTick: true,
+		Retentions: []time.Duration{0, 10 * min, 20 * sec}, Keys: []string{""},
+		W: weights(map[string]int{"job": 0, "expire-job": 0, "jump": 20, "jump-long": 0, "delete-sub": 3, "create-sub": 4, "delete-topic": 2, "create-topic": 2,
+			"seek-time": 0, "seek-snapshot": 0, "snapshot": 2, "stream": 0, "pull-due": 10, "set-delay": 0})}
+	n := cfg.N(120, 3000)
+	var pairs, same, svcRows int64
+	for i := 0; i < n; i++ {
+		seed := cfg.CaseSeed("C15svc", i)
+		if !cfg.Want(i, seed) {
+			continue
+		}
+		scratch := evd.New("C15", cfg)
+		var rowsPlain int
+		plain := hist.RunHistoryOpt(t, scratch, "C15", prof, seed, nil, func(w *hist.World, g *hist.Gen) {
+			d := must(rig.TakeDump(w.E.RawDB()))
+			rowsPlain = len(d["deliveries"]) + len(d["messages"])
+		})
+		var stop func()
+		var rowsBefore int
+		with := hist.RunHistoryOpt(t, col, "C15", prof, seed,
+			func(w *hist.World) { stop = startPruneServices(w) },
+			func(w *hist.World, g *hist.Gen) {
+				stop()
+				d := must(rig.TakeDump(w.E.RawDB()))
+				rowsBefore = len(d["deliveries"]) + len(d["messages"])
+			})
+		if rowsPlain > rowsBefore {
+			svcRows += int64(rowsPlain - rowsBefore)
+		}
+		a, b := clientTrace(plain), clientTrace(with)
+		pairs++
+		diffAt := -1
+		for k := 0; k < len(a) && k < len(b); k++ {
+			if a[k] != b[k] {
+				diffAt = k
+				break
+			}
+		}
+		if diffAt < 0 && len(a) != len(b) {
+			diffAt = min2(len(a), len(b))
+		}
+		if diffAt >= 0 {
+			get := func(x []string, k int) string {
+				if k < len(x) {
+					return x[k]
+				}
+				return "(end)"
+			}
+			col.Violation("twin-trace-differs:services", fmt.Sprintf("the same history (seed %d) gives a different client-visible trace when the real prune services run in the background; first difference at client step %d: without %q, with %q", seed, diffAt, get(a, diffAt), get(b, diffAt)),
+				map[string]any{"case_seed": seed, "profile": "twin-services", "step": diffAt, "without_services": get(a, diffAt), "with_services": get(b, diffAt), "ops_with_services": with.Ops})
+		} else {
+			same++
+		}
+	}
+	col.Add("ev_service_twin_pairs", pairs)
+	col.Add("ev_service_twin_pairs_identical", same)
+	col.Add("ev_rows_reclaimed_by_the_background_services", svcRows)
+	col.Add("relevant_events", svcRows)
+}
+
+func min2(a, b int) int {
+	if a < b {
+		return a
+	}
+	return b
 }
 
 func TestC15(t *testing.T) {
